@@ -22,7 +22,7 @@ if os.path.exists('/verif/seeded_results.json'):
     rows=['| seeded change | breaks | detected by | not detected by (run) |','|---|---|---|---|']
     for k in sorted(sr):
         v=sr[k]
-        rows.append('| %s | %s | %s | %s |'%(k,v.get('breaks','')[:160].replace('|','/'),', '.join(v.get('detected',[])) or '-',', '.join(v.get('missed',[])) or '-'))
+        rows.append('| %s | %s | %s | %s |'%(k,v.get('breaks','')[:160].replace('|','/'),', '.join(v.get('detected',[])) or '-',(', '.join(v.get('missed',[])) or '-')+((' — '+v['note'].replace('|','/')) if v.get('note') else '')))
     block('seeded','\n'.join(rows))
 m=json.load(open('/verif/MANIFEST.json'))
 props={json.loads(l)['id']:json.loads(l) for l in open('/verif/properties.jsonl')}
@@ -35,5 +35,11 @@ for pid in sorted(props):
     else:
         rows.append('| %s %s | not claimed | %s |'%(pid,props[pid]['title'][:60],na[pid]['reason'][:500].replace('|','/')))
 block('status','\n'.join(rows))
+import glob
+rows=['| check | obligations | discharged | functions under contract | wall (s, last run, cache warm) |','|---|---|---|---|---|']
+for f in sorted(glob.glob('/verif/evidence/C*.json')):
+    e=json.load(open(f)); c=e['coverage']
+    rows.append('| %s | %s | %s | %s | %s |'%(e['property_id'],c.get('obligations'),c.get('discharged'),len(c.get('functions_under_contract') or []),e.get('wall_s')))
+block('cost','\n'.join(rows))
 open(p,'w').write(s)
 print('DESIGN.md blocks updated')
